@@ -44,6 +44,8 @@ Native replays of every refutation and of the ASSUMED metadata table: tools/c08n
 """
 import ast
 import itertools
+import time
+
 import z3
 
 from vc import backends
@@ -332,7 +334,9 @@ AFTER1 = z3.Function("text_after_first_occurrence", S, S, S)
 def split1_facts(z, sep):
     """ASSUMED str.split(sep, 1) for a non-empty sep: [z] when sep does not occur, else [text before the FIRST occurrence, text after it]"""
     b, a = BEFORE1(z, sep), AFTER1(z, sep)
-    return [z3.Implies(z3.Contains(z, sep), z3.And(z == z3.Concat(b, sep, a), z3.IndexOf(z, sep, 0) == z3.Length(b)))]
+    # FIRST occurrence: sep does not occur in (before + sep without its last character).  (The IndexOf formulation left z3 `unknown`.)
+    return [z3.Implies(z3.Contains(z, sep), z3.And(z == z3.Concat(b, sep, a), z3.Length(sep) > 0,
+                                                   z3.Not(z3.Contains(z3.Concat(b, z3.SubString(sep, 0, z3.Length(sep) - 1)), sep))))]
 
 
 class Split1V:
@@ -680,6 +684,71 @@ def pose_s(res, timeout, name, hyps, goal, detail, model_terms=()):
         mdl = {str(t)[:70]: mval(m, t) for t in model_terms} or {"z3_model": str(m)[:300]}
     res.add(name, st, mdl, secs, "z3", detail)
     return st
+
+
+def abstract_string_ufs(fs):
+    """replace every application of an uninterpreted function of sort String by a fresh constant (same term -> same constant): a
+    WEAKER set of constraints (congruence of those functions is dropped) the string solver copes with; only used to FIND candidate
+    values - a candidate is kept only if the full constraints are satisfiable with it (see bounded_counter_model)"""
+    apps, seen = {}, set()
+
+    def walk(t):
+        if t.get_id() in seen:
+            return
+        seen.add(t.get_id())
+        for c in t.children():
+            walk(c)
+        if z3.is_app(t) and t.num_args() > 0 and t.decl().kind() == z3.Z3_OP_UNINTERPRETED and t.sort() == S:
+            apps[t.get_id()] = t
+    for f in fs:
+        walk(f)
+    order = sorted(apps.values(), key=lambda t: -len(t.sexpr()))
+    pairs = [(t, z3.String(f"abs!{k}")) for k, t in enumerate(order)]
+    out = fs
+    for t, c in pairs:
+        out = [z3.substitute(f, (t, c)) for f in out]
+    return out, pairs
+
+
+def bounded_counter_model(cs, inst, neg_goal, names, timeout, subst=()):
+    """UNKNOWN in general -> the same query on a bounded instance `inst` of the scenario: candidate texts from the abstraction above
+    (after replacing the instance's defined terms `subst` by their explicit values), then the FULL constraints with those texts fixed.
+    Returns (model, secs) or (None, secs); never proves anything"""
+    t0 = time.time()
+    full = list(cs) + list(inst) + [neg_goal]
+    weak = full
+    for pair in subst:                 # one at a time: later pairs may occur inside terms created by earlier ones
+        weak = [z3.substitute(f, pair) for f in weak]
+    weak, _ = abstract_string_ufs([z3.simplify(f) for f in weak])
+    n_first = len(inst) + 1
+    rest = weak[:len(cs)]
+    word_eqs = [c for c in rest if "Concat" in str(c) and "number_of_" not in str(c)]
+    ids = {c.get_id() for c in word_eqs}
+    # the instance and the negated goal first, then the word equations (what the texts ARE), then everything else
+    weak = weak[len(cs):] + word_eqs + [c for c in rest if c.get_id() not in ids]
+    st, m, _ = solve(weak, min(timeout, 3000))
+    if st == UNKNOWN:
+        # greedy weakening: add the constraints one by one, leave out those that make the solver give up (dropping hypotheses can only add
+        # models; the candidate is validated against ALL constraints below)
+        kept = []
+        for k, c in enumerate(weak):
+            sol = z3.Solver()
+            sol.set("timeout", 1500)
+            sol.add(*kept, c)
+            r = sol.check()
+            if r == z3.sat:
+                kept.append(c)
+                m = sol.model()
+            elif r == z3.unsat or k < n_first:
+                return None, time.time() - t0          # the instance itself is contradictory / undecidable here
+            if time.time() - t0 > 6 * timeout / 1000:
+                break
+        st = REFUTED if len(kept) >= n_first else UNKNOWN
+    if st != REFUTED or m is None:
+        return None, time.time() - t0
+    fixed = [x == m.eval(x, model_completion=True) for x in names]
+    st, m2, _ = solve(full + fixed, timeout)
+    return (m2 if st == REFUTED else None), time.time() - t0
 
 
 def trace(res, name, ok, detail, info=None):
@@ -2793,6 +2862,23 @@ def run_read_row_group(ctx, funcs, timeout, scheme, cats_meta, passed_meta):
         st_, m, secs = solve(cs + [z3.Not(z3.And(akey == key, ix.key == key))], timeout)
         res.add(P + "assigned_to_the_column_itself", st_, None, secs, "z3", "the array written and the category list used are those of the SAME partition column")
         st_, m, secs = solve(cs + [z3.Not(ix.v == R.VALNUM(txt, mid_read))], timeout)
+        if st_ == UNKNOWN and scheme == "hive":
+            # undecided in general: the SAME query on a bounded instance of the scenario (two directory levels, the second one the
+            # column's, every text at most 4 characters); a model there is a genuine counter-model, PROVED never comes from here
+            k0, k1, t0, t1 = R.KEYN(0), R.KEYN(1), R.TXT(R.j0, 0), R.TXT(R.j0, 1)
+            fp = R.PATHT(R.j0)
+            inst = [R.D == 2, c == 1, fp == z3.Concat(k0, EQ, t0, SL, k1, EQ, t1, sv("/part.0.parquet")), k0 != k1,
+                    PIECE_PRE(fp, 1) == z3.Concat(k0, EQ, t0, SL), PIECE_POST(fp, 1) == sv("/part.0.parquet")]
+            for x in (k0, k1, t0, t1):
+                inst += [z3.Length(x) >= 1, z3.Length(x) <= 4, z3.Not(z3.Contains(x, SL)), z3.Not(z3.Contains(x, EQ))]
+            e_fp, e_l1 = z3.Concat(k0, EQ, t0, SL, k1, EQ, t1, sv("/part.0.parquet")), z3.Concat(k1, EQ, t1)
+            sub = [(c, z3.IntVal(1)), (R.D, z3.IntVal(2)), (fp, e_fp)]
+            sub += [(PIECE_PRE(e_fp, z3.IntVal(1)), z3.Concat(k0, EQ, t0, SL)), (PIECE_POST(e_fp, z3.IntVal(1)), sv("/part.0.parquet")),
+                    (PIECE["/"](e_fp, z3.IntVal(1)), e_l1), (PIECE["/"](DIRNAME(e_fp), z3.IntVal(1)), e_l1),
+                    (PIECE["="](e_l1, z3.IntVal(0)), k1), (PIECE["="](e_l1, z3.IntVal(1)), t1)]
+            m2, secs2 = bounded_counter_model(cs, inst, z3.Not(ix.v == R.VALNUM(txt, mid_read)), (k0, k1, t0, t1), timeout, sub)
+            if m2 is not None:
+                st_, m, secs = REFUTED, m2, secs + secs2
         res.add(P + "value_is_parsed_from_own_path_level_of_that_column", st_,
                 {"path": mval(m, R.PATHT(R.j0)), "column": mval(m, key), "its level": mval(m, R.lvl(R.j0, c)),
                  "text before that level": mval(m, PIECE_PRE(R.PATHT(R.j0), c)), "value text of the level": mval(m, txt)} if m is not None else None, secs, "z3",
